@@ -869,6 +869,37 @@ def state_the_checker_agrees_with(ctx: Ctx):
     for o in ctx.obligations[n1:]:
         o.rule = "C06.s"
     C01.op_lengths(ctx, "C06.v")
+    # C06.x: what the checker reads of the instance is never rewritten by `_step` (the checker is handed the FINAL state of the
+    # episode: `demand` replaced by the remaining demand makes every tour `serve` all customers).  The improvement envs' checker
+    # reads `rec_best`, which is state by design.
+    STATE_BY_DESIGN = {"rec_best", "rec_current"}
+    for cname, (path, family) in T.CHECK_ENVS.items():
+        env_ = EnvA(ctx.repo, path, cname)
+        ck_, st_ = env_.slot("check_solution_validity"), env_.slot("_step")
+        if ck_ is None or st_ is None or st_.td is None:
+            continue
+        read = set()
+        for e in ck_.events("assert"):
+            if isinstance(e.data, vg.S):
+                read |= vg.cells_of(e.data)
+        rew = {k for k, v in st_.td.cells.items() if not (v.op == "cell0" and v.args[1] == k)}
+        both = sorted((read & rew) - STATE_BY_DESIGN)
+        ctx.ob("C06.x", f"{cname}.checker:instance-fields-survive-the-episode", not both, ck_.where,
+               f"fields the checker reads: {sorted(read)[:8]}; rewritten by _step: {both or 'none of them'}",
+               construct=f"{cname}:checker-reads-rewritten:{','.join(both)}")
+    # C06.w: a file loaded with scale=True is in the units the generator emits: the same fields are rescaled (C19.b, shared)
+    from . import C19
+    from ..core import Ctx as _Ctx
+    import contextlib, io
+    sub = _Ctx("C19", ctx.repo, "quick", 0)
+    with contextlib.redirect_stdout(io.StringIO()):
+        C19.run(sub)
+    got = [o for o in sub.obligations if o.rule == "C19.b" and "MTVRPEnv.load_data" in o.instance]
+    if not got:
+        raise AnalysisError("C19.b obligations for MTVRPEnv.load_data not produced")
+    for o in got:
+        o.rule = "C06.w"
+        ctx.obligations.append(o)
     from .C04 import batch_rows
     batch_rows(ctx, "C06.t", envs=tuple(T.CHECK_ENVS), meths=("_reset",))
 
